@@ -31,6 +31,28 @@ CLAIMED = {
          TB + "libstdc++ never lowers std::string capacity on clear/resize. Concurrent Get/Recycle are serialised by m_mtx, so concurrent histories are sequential ones "
          "(not separately model-checked here).",
          "Coq proof (inductive invariant over operation histories) + differential execution of model and real BufferPool"),
+ "C02": ("proof", "Theorems about the send-queue machine (DriverSend reduced to its effect on the queue) for every sequence of send() results: driver_send_fifo, "
+         "future_value_means_all_accepted, partial_write_keeps_front, resolves_only_front, arm_only_that_descriptor, sends_use_nosignal. Correspondence: sequential "
+         "histories on async TCP sockets under the scripted kernel (every partial-write pattern, failures, refills from handlers, destruction with sends pending); "
+         "compared: send() calls with per-buffer position-coded content checked by the virtual kernel, future states, pool occupancy, POLLOUT bits.", "5 C02",
+         TB + "Sequential histories only in this check: producer/driver interleavings are covered by C04/C05's model and harness. Liveness ('does not stay pending') "
+         "needs kernel/driver fairness, stated not proved. The link between DriverModel.driver_send and the pure queue machine is by construction (same case split), not a lemma.",
+         "Coq proof (queue machine, all send-result sequences) + trace correspondence under a scripted virtual OS"),
+ "C03": ("proof", "Theorems one_socket_per_step, socket_task_first_ready, socket_task_priority (data before disconnect), unregister_removes_both, "
+         "receive_delivers_what_recv_returned, disconnect_unregisters_first for every readiness vector; correspondence on async TCP sockets and acceptors with scripted "
+         "readiness orders, stream segmentations, closes/errors at any point; handler events (kind, socket, payload checked byte-wise, peer address) compared and monitored.", "5 C03",
+         TB + "Kernel readiness semantics trusted. 'Handlers run on the stepping thread' is structural in the model (handlers are invoked from step only).",
+         "Coq proof (selection function, list alignment) + handler-event correspondence under a scripted virtual OS"),
+ "C06": ("proof", "Theorems over every history of Insert/Remove/Move/pop-when-due on the driver's list: insert_sorted, insert_stable (ties keep scheduling order), remove_sorted, "
+         "move_single_entry, cancel_prevents, exactly_once, todos_invariant_all_histories, front_is_minimum (due and earliest), never_early, refines_pending. Correspondence: ToDo "
+         "histories incl. operations from inside tasks, under a virtual clock with model-guided adaptive scripts; compared: task executions, clock readings, poll time-outs, the list itself.", "5 C06",
+         TB + "Single driving thread here (cross-thread Shift/Cancel are serialised by the step mutex: C04). 'Promptly' = a Step entered with the front due runs it; Step(0) runs one due task per step (documented).",
+         "Coq proof (sorted-list invariants over all operation histories) + trace correspondence under a virtual clock"),
+ "C17": ("proof", "Theorems want_send_on_unlisted_is_noop, unregister_tolerates_absent, remove_tolerates_absent, pfds_aligned_invariant (every register/unregister history), "
+         "promises_resolved_at_most_once_guard; the model marks every place where the C++ has undefined behaviour as Stuck and the correspondence (random walks over create/send/step/"
+         "peer-action/destroy/cancel/shift, each in an isolated process under ASan+UBSan with _GLIBCXX_SANITIZE_VECTOR and asserts enabled) checks that model and library agree and never get there.", "5 C17",
+         TB + "Partial by nature: the theorems are about logic-level validity of lookups, indices and lifetimes; memory safety of the compiled code is evidenced by the sanitizer runs on the same histories, not proved.",
+         "Coq proof (bookkeeping invariants) + sanitizer-instrumented correspondence on random legal histories"),
  "C16": ("proof", "Theorems wait_never_fails_with_eintr, step_wait_never_fails_with_eintr, interrupted_wait_keeps_timeout_semantics, eintr_transparent_unlimited and the "
          "lifts to Send/Receive for every script (any number and timing of EINTR); correspondence with 0-5 injected EINTR results per wait.", "5 C16",
          TB + "EINTR injected at the libc boundary by the virtual OS.",
